@@ -2,8 +2,11 @@
 //! Writes `<outdir>/<family>.qa` (Q/A line pairs, see `out.rs`) and `<outdir>/<family>.stats.json`.
 mod c10;
 mod c11;
+mod c14;
+mod c21;
 mod c26;
 mod c27;
+mod obj;
 mod out;
 mod rng;
 
@@ -24,7 +27,11 @@ fn main() {
     match fam {
         "c10" => c10::run(&mut rng, &mut out, n),
         "c11" => c11::run(&mut rng, &mut out, n),
+        "c14" => c14::run(&mut rng, &mut out, n),
+        "c21" => c21::run(&mut rng, &mut out, n),
         "c26" => c26::run(&mut rng, &mut out, n),
+        "obj" => obj::run(&mut rng, &mut out, n),
+        "objseed" => obj::run_seed(&mut rng, &mut out, n),
         "c27" => c27::run(&mut rng, &mut out, n),
         "c27x" => c27::run_exhaustive(&mut out, n),
         _ => {
